@@ -48,7 +48,7 @@ def corpus(check, S):
     cdir = os.path.join(common.VERIF, 'corpus', 'flow')
     for fn in sorted(glob.glob(os.path.join(cdir, '*.py'))):
         progs.append(('corpus:' + os.path.basename(fn), open(fn).read()))
-    n = 120 if quick else 3000
+    n = 120 if quick else 900
     for i in range(n):
         g = pygen.Gen(check.rng, depth=check.rng.choice([2, 3, 3, 4]), loops=2.0)
         src = g.program()
@@ -56,7 +56,7 @@ def corpus(check, S):
             continue
         progs.append(('gen%d' % i, src))
     # smaller programs on which the checked and the exact evaluator (exponential in the loop nesting depth) also run
-    for i in range(80 if quick else 1200):
+    for i in range(80 if quick else 500):
         g = pygen.Gen(check.rng, depth=check.rng.choice([2, 2, 3]), loops=1.5, scopes=check.rng.random() < 0.5)
         src = g.program()
         if not pygen.valid(src):
@@ -86,7 +86,40 @@ PROJECT_FILES = {
                     'def make():\n    return zq_pkg.sub.X()\ndef make2():\n    return zq_pkg.other.Y()\n',
     'zq_factory.py': 'from zq_helper import make, H\nimport zq_pkg.sub\nobj = make()\nh = H()\nk = zq_pkg.sub.X\n',
     'zq_star.py': 'from zq_helper import *\nfrom zq_factory import obj\n',
+    'zq_lib.py': 'class Conf(object):\n    def __init__(self):\n        self.depth = 1\n    def load(self):\n        pass\n'
+                 'class Keeper(object):\n    def __init__(self):\n        self.conf = Conf()\n        self.name = "k"\n    def keep(self):\n        return self.conf\n',
+    # classes whose attribute tables need each other (a property over an attribute assigned through its setter, instances made
+    # inside methods of another class, class attributes assigned at module level): evaluation is cut where it meets itself, and what
+    # was computed above a cut must not outlive the request (supp 265f3e6)
+    'zq_props.py': 'def check(level):\n    return level\n'
+                   'class Holder(object):\n    def __init__(self, a):\n        self.items = {a: None}\n    def append(self, a):\n        self.items[a] = None\n'
+                   'class Manager(object):\n    def __init__(self, rootnode):\n        self.root = rootnode\n        self.disable = 0\n        self.table = {}\n'
+                   '    @property\n    def disable(self):\n        return self._disable\n'
+                   '    @disable.setter\n    def disable(self, value):\n        self._disable = check(value)\n'
+                   '    def get(self, name):\n        rv = Node(name)\n        rv.manager = self\n        return rv\n'
+                   'class Node(object):\n    def __init__(self, name):\n        self.name = name\n        self.parent = None\n'
+                   '    def child(self, suffix):\n        return self.manager.get(suffix)\n'
+                   'root = Node("root")\nNode.root = root\nNode.manager = Manager(Node.root)\n',
 }
+
+# values with one and with two alternatives (CompositeValue over instance attributes, call results, imported objects)
+POOL = ['zq_lib.Keeper().conf', 'zq_lib.Keeper()', 'zq_lib.Keeper().keep()', 'zq_helper.make()', 'zq_factory.h', 'zq_factory.obj', 'Other()', 'zq_lib.Conf()',
+        'zq_props.Manager(1)', 'zq_props.Holder(1)', 'zq_props.Node(1)', 'zq_props.root', 'zq_props.Node(1).child(2)', 'zq_props.Manager(1).get(1)']
+PRELUDE = 'import zq_lib, zq_helper, zq_factory, zq_props\nclass Other(object):\n    def extra_method(self):\n        pass\n'
+
+
+def pool_requests():
+    out = []
+    for a in POOL:
+        src = PRELUDE + 'v = %s\nv.' % a
+        out.append(('assist', src, (src.count('\n') + 1, 2)))
+    for i, a in enumerate(POOL):
+        for b in POOL[i + 1:]:
+            for x, y in ((a, b), (b, a)):
+                src = PRELUDE + 'if c:\n    v = %s\nelse:\n    v = %s\nv.' % (x, y)
+                out.append(('assist', src, (src.count('\n') + 1, 2)))
+    return out
+
 
 REQUESTS = [
     ('assist', 'import zq_helper\nzq_helper.make().', (2, 17)),
@@ -136,11 +169,12 @@ def project_histories(check, S):
         fn = os.path.join(root, rel)
         os.makedirs(os.path.dirname(fn), exist_ok=True)
         open(fn, 'w').write(content)
+    REQUESTS = globals()['REQUESTS'] + pool_requests()
     ref = [do_request(S, S['project'].Project([root]), root, r, False) for r in REQUESTS]
     n = histories = 0
     idx = list(range(len(REQUESTS)))
-    orders = [idx, idx[::-1], idx + idx]
-    for _ in range(25 if quick else 400):
+    orders = [idx, idx[::-1]]
+    for _ in range(40 if quick else 600):
         o = [check.rng.choice(idx) for _ in range(check.rng.randint(2, 14))]
         orders.append(o)
     for o in orders:
@@ -297,6 +331,26 @@ def replay(path):
     bad = 0
     for item in data.get('failing_inputs', []):
         r = item['replay']
+        if 'history' in r:
+            root = tmp + '-p'
+            for rel, content in r['files'].items():
+                fn = os.path.join(root, rel)
+                os.makedirs(os.path.dirname(fn), exist_ok=True)
+                open(fn, 'w').write(content)
+            pr = S['project'].Project([root])
+            ans = None
+            for q in r['history']:
+                q = (q[0], q[1], tuple(q[2]) if q[2] else None)
+                ans = do_request(S, pr, root, q, r['inside_check_changes'])
+                if list(q[:2]) == r['request'][:2]:
+                    break
+            q = r['request']
+            cold = do_request(S, S['project'].Project([root]), root, (q[0], q[1], tuple(q[2]) if q[2] else None), False)
+            print('history answer %r\nfresh-project answer %r' % (ans, cold))
+            bad += ans != cold
+            import shutil
+            shutil.rmtree(root, ignore_errors=True)
+            continue
         if 'order' not in r:
             continue
         g = flowgraph.analyse(S, r['source'], os.path.join(tmp, 'm.py'), project)
